@@ -104,6 +104,16 @@ def run(prog):
     for name, fn, f in (("insert", ins, fi), ("lookup", get, fg)):
         for k, w in want.items():
             ok = f[k] == w
+            # `x & self.mask` for `x % self.cap`: the same slot exactly while mask = cap - 1 and cap is a power of two.  That the
+            # field follows `cap` is DI's business (a field derived from a sibling is stored again wherever the sibling is);
+            # whether cap is a power of two is not decided here
+            masked = (lambda v: re.sub(r"BitAnd arg1\.\w+", "Rem CAP", v) if isinstance(v, str) else
+                      [re.sub(r"BitAnd arg1\.\w+", "Rem CAP", x) for x in v]) if f[k] is not None else (lambda v: v)
+            if not ok and f[k] is not None and masked(f[k]) == w:
+                out.append(inst("RH", "%s:%s" % (fn.npath, k), UNDECIDED, fn, None,
+                                "?%s = %s: a masked form of hash %% cap — equal to it only while the mask field is cap - 1 and cap "
+                                "is a power of two" % (k, f[k])))
+                continue
             out.append(inst("RH", "%s:%s" % (fn.npath, k), OK if ok else VIOLATION, fn, None,
                             "%s = %s" % (k, f[k]) if ok else
                             "probe loop of the %s has %s = %s, expected %s (the other loops walk hash %% cap, +1 per step, "
@@ -119,9 +129,12 @@ def run(prog):
     home_bbs = []
     for bi, b in enumerate(ins.blocks):
         for st in b["stmts"]:
-            if st["k"] == "assign" and st["rv"]["k"] == "bin" and st["rv"]["op"] == "Rem":
+            if st["k"] == "assign" and st["rv"]["k"] == "bin" and st["rv"]["op"] in ("Rem", "BitAnd"):
                 a = st["rv"]["b"]
-                if a.get("k") in ("copy", "move") and any(e.get("name") == "cap" for e in a["place"]["proj"]) or \
+                if st["rv"]["op"] == "BitAnd" and not (a.get("k") in ("copy", "move") and
+                                                      any(e.get("name") for e in a["place"]["proj"])):
+                    continue          # `b & 1` and the like: not a reduction by a field of the table
+                if a.get("k") in ("copy", "move") and any(e.get("name") == "cap" or st["rv"]["op"] == "BitAnd" for e in a["place"]["proj"]) or \
                         (a.get("k") in ("copy", "move") and ins.local_name(a["place"]["l"]) is None and
                          "cap" in show(te_i.state_out.get(bi, {}).get(a["place"]["l"], ()))):
                     # only the computation that seeds the probe (outside the loop)
@@ -129,7 +142,7 @@ def run(prog):
                         home_bbs.append(bi)
     errs = []
     if not grow_bbs or not home_bbs:
-        errs.append("growth call or home-slot computation not found (%d/%d)" % (len(grow_bbs), len(home_bbs)))
+        errs.append("?growth call or home-slot computation not found (%d/%d)" % (len(grow_bbs), len(home_bbs)))
     else:
         for hb in home_bbs:
             for gb in grow_bbs:
